@@ -185,4 +185,16 @@ def run_case(c, stats):
         g2 = g if (n or 0) % 2 == 0 else gcfg.build(c)
         with core.oracle_mode():
             judge_words(g2, ref, n)
+    # grammars DERIVED from g once its analyses are warm: the same analyses asked of them are judged against their
+    # own productions (a cache handed down by the parent would show)
+    derive = [g.remove_epsilon, g.remove_useless_symbols, g.eliminate_unit_productions, g.to_normal_form,
+              g.reverse, g.get_closure]
+    for f in (derive[k % 6], derive[(k + 1 + k // 6) % 6]):
+        ok, h = call(f)
+        if ok and hasattr(h, "is_empty"):
+            for q in (h.is_empty, h.get_generating_symbols, h.get_nullable_symbols, h.get_reachable_symbols,
+                      h.is_finite):
+                call(q)
+            with core.oracle_mode():
+                judge_words(h, ref_of(h), 2)
     return len(ref.prods) >= 2 and not ref.is_empty()
